@@ -63,6 +63,14 @@ fn main() {
             std::process::exit(2);
         }
     };
+    // whole-run watchdog: a check must never hang (e.g. on a change that makes the code under test loop forever)
+    let cap_s: u64 = std::env::var("MC_WALL_CAP_S").ok().and_then(|s| s.parse().ok()).unwrap_or(if tier == Tier::Quick { 1500 } else { 4 * 3600 });
+    let wd_id = id.clone();
+    std::thread::spawn(move || {
+        std::thread::sleep(std::time::Duration::from_secs(cap_s));
+        eprintln!("MACHINERY-ERROR [{wd_id}]: wall-clock cap of {cap_s} s exceeded (the code under test or the harness does not terminate); no verdict");
+        std::process::exit(2);
+    });
     let ctx = Ctx::new(&id, tier, seed, props::level_of(&id));
     let r = common::catch(|| props::run(&id, &ctx));
     match r {
